@@ -250,6 +250,8 @@ def translate(repo):
             fn()
         except Untranslatable as e:
             problems.append('%s: %s' % (fn.__name__, e))
+        except Exception as e:  # noqa  (source shape this extractor does not expect: fail closed as well)
+            problems.append('%s: %s: %s' % (fn.__name__, type(e).__name__, e))
 
     corr = ast.parse(open(os.path.join(src, 'base', 'correlation.py')).read())
     patt = ast.parse(open(os.path.join(src, 'common', 'patterns.py')).read())
